@@ -7,10 +7,10 @@ import lib_doc as L
 from framework import Result
 
 ID = 'C10'
-# ---- PLACEHOLDER (to be filled in by the proof side): Lean targets and theorem names ----------
-LEAN_TARGETS = []
-THEOREMS = []
-# -----------------------------------------------------------------------------------------------
+LEAN_TARGETS = ['TexSoupProofs.Properties.C10']
+THEOREMS = ['TexSoup.C10.' + n for n in (
+    'comment_token', 'escaped_percent_token', 'percent_is_comment_char', 'comment_is_leaf', 'comment_closes_nothing',
+    'comments_not_searchable')]
 PARTIAL = []
 TRUSTED = ['harness/props/c10.py (contexts, hostile payload alphabet, shape comparison)',
            'harness/gen_doc.py (documents with comments, normal form with blanked comment leaves)',
@@ -306,9 +306,9 @@ def correspondence(ctx):
 def oracle(ctx, seeds, scale):
     r = Result()
     common.impl()
-    for s in seeds:
-        if isinstance(s, str):
-            r.count(('seed', s), True)
+    # the inputs on which the correspondence diverged are among the (shared) inputs below, where they are
+    # evaluated first-class with their generating record; nothing more can be said about a bare string
+    r.stats['diverging_inputs_received'] = len([s for s in seeds if isinstance(s, str)])
     key = (ctx.tier, ctx.seed, True, 1)
     res = list(_CACHE[key]) if key in _CACHE and scale == 1 else list(_run(ctx, False, scale))
     st = L.merge_jobs(res, None, r)
